@@ -7,13 +7,18 @@ naming via get_helicity_angle_symbols / get_invariant_mass_symbol.   DESIGN.md s
 (a) masses: m >= 0, m^2 == (sum E)^2 - |sum p|^2 for the final-state ids in the subscript.
 (b) helicity angles == an independent boost-and-rotate reference (own matrices, own naming
     from the topology), compared as cos(theta) and (cos phi, sin phi).
+(c) three-body decays: cos(theta_i^{ij}) of the four-vector route == formulate_scattering_angle(i, j) in the
+    Dalitz variables of the same event (narrow bound: rational rest-frame events under a symbolic rotation).
 (d) one name, one quantity: every name defined by two registered topologies has equal values.
+If the library's code for a configuration cannot be encoded (deeper frames than the reference needs), concrete
+witness events are tried on the real code: a reproduced difference is a VIOLATION, otherwise INCONCLUSIVE.
 """
 
 from __future__ import annotations
 
 import ctypes
 import itertools
+from fractions import Fraction
 
 import numpy as np
 import sympy as sp
@@ -21,7 +26,9 @@ import z3
 
 from vf.core import Ctx, Unsupported
 from vf.harness import Check
+from vf.replay import rat
 from vf.solve import Obligation, Result, discharge, identity_obligations, merge_lemma_obligations, side_obligations
+from vf.sym2smt import Translator
 from vf.symnp import SymNumPy, generated_source, momentum_array, sym_exec, validate_shim
 
 
@@ -353,6 +360,74 @@ def numeric_reference(topology, ev):
     return out
 
 
+# --------------------------------------------------------------------------- (c) Dalitz closed form
+def cfg_dalitz(config, tier, seed):
+    """three-body decay in the parent rest frame: cos(theta_i^{ij}) of the four-vector route (generated code, E2)
+    == the library's closed form formulate_scattering_angle(i, j) in the Dalitz variables of the same event.
+    Bound as in C04: a concrete rational rest-frame event rotated by a SYMBOLIC angle about a coordinate axis
+    (the closed form is a rational constant of the event, the four-vector route a function of t)."""
+    from ampform.kinematics.angles import formulate_scattering_angle
+
+    from checks.c04 import make_event, rotated
+
+    cse = config["cse"]
+    base = _topologies(3)[0]
+    inner = next(i for i in base.edges if i not in base.outgoing_edge_ids and i not in base.incoming_edge_ids)
+    topology = base.relabel_edges({inner: 10}).relabel_edges(dict(zip(sorted(base.outgoing_edge_ids), config["perm"])))
+    ctx = Ctx(config["name"])
+    tz = ctx.real("t")
+    ctx.univariate = (tz, sp.Symbol("t"))
+    event = make_event(seed, config["event"])
+    P = dict(zip((1, 2, 3), rotated(ctx, event, config["axis"], tz)))
+    vals, fns, args = library_values(ctx, topology, P, cse, which=("angles",))
+    name = next(n for n in vals if n.startswith("theta") and "^" in n)
+    i = int(name.split("_")[1][0])
+    j = next(int(ch) for ch in name.split("^")[1] if int(ch) != i)
+    cos_lib = vals[name].unit.real_part().normalized()
+    _, closed = formulate_scattering_angle(i, j)
+    if isinstance(closed, sp.acos):
+        ratio = closed.args[0]
+    elif isinstance(-closed, sp.acos):
+        ratio = (-closed).args[0]  # cos(-x) = cos(x)
+    else:
+        raise Unsupported(f"closed form is not +-acos(...): {str(closed)[:80]}")
+
+    def m2(ids):  # exact squared invariant mass of the (unrotated) rational event
+        tot = [sum(event[n - 1][c] for n in ids) for c in range(4)]
+        return tot[0] ** 2 - tot[1] ** 2 - tot[2] ** 2 - tot[3] ** 2
+
+    fresh, sq = {}, {}
+    for s_ in sorted(ratio.free_symbols, key=str):
+        ids = tuple(int(ch) for ch in s_.name[2:]) if s_.name != "m_0" else (1, 2, 3)
+        fresh[s_] = sp.Symbol(f"Msq_{s_.name[2:]}", positive=True)
+        sq[fresh[s_]] = ctx.const(m2(ids))
+    closed_cos = Translator(ctx, symbol_values=sq)(_msq(ratio.doit(), fresh)).normalized()
+    obs = identity_obligations(f"cos({name}) == closed form cos(theta_{i}{j}) in the Dalitz variables", cos_lib, closed_cos)
+
+    def replay(nm, asg):
+        t_val = float(Fraction(asg.get("t", 0)))
+        w = 2 * np.arctan(t_val)
+        c, s_ = np.cos(w), np.sin(w)
+        Rm = {"z": np.array([[c, -s_, 0], [s_, c, 0], [0, 0, 1]]), "y": np.array([[c, 0, s_], [0, 1, 0], [-s_, 0, c]]), "x": np.array([[1, 0, 0], [0, c, -s_], [0, s_, c]])}[config["axis"]]
+        ev = {n: np.array([[float(event[n - 1][0]), *(Rm @ np.array([float(v) for v in event[n - 1][1:]]))]]) for n in (1, 2, 3)}
+        got = real_value(fns[name], args, ev)
+        subs = {s_: sp.sqrt(rat(m2(tuple(int(ch) for ch in s_.name[2:]) if s_.name != "m_0" else (1, 2, 3)))) for s_ in closed.free_symbols}
+        want = complex(closed.doit().xreplace(subs).evalf())
+        d_ = abs(np.cos(got.real) - np.cos(want.real)) + abs(want.imag)
+        return {"reproduced": bool(np.isnan(got.real) or d_ > 1e-7), "four-vector route": str(got), "closed form": str(want), "rotation_angle": w, "axis": config["axis"]}
+
+    return discharge(ctx, merge_lemma_obligations(ctx) + obs, config=config["name"], replay=replay, timeout_s=config.get("timeout", 60), hunt_rounds=0)
+
+
+def _msq(expr, fresh):
+    """m -> sqrt(Msq): the closed form contains masses only in even powers; anything else is reported"""
+    out = expr.xreplace({s_: sp.sqrt(f) for s_, f in fresh.items()})
+    odd = [p for p in out.atoms(sp.Pow) if p.base in set(fresh.values()) and not p.exp.is_Integer]
+    if odd or out.free_symbols & set(fresh):
+        raise Unsupported(f"closed form is not a function of squared masses only: {sorted(map(str, odd))}")
+    return out
+
+
 # --------------------------------------------------------------------------- (d) one name, one quantity
 def cfg_names(config, tier, seed):
     from ampform.kinematics import HelicityAdapter
@@ -414,7 +489,7 @@ def cfg_names(config, tier, seed):
 
 def worker(config, tier, seed):
     try:
-        return {"masses": cfg_masses, "angles": cfg_angles, "names": cfg_names}[config["kind"]](config, tier, seed)
+        return {"masses": cfg_masses, "angles": cfg_angles, "names": cfg_names, "dalitz": cfg_dalitz}[config["kind"]](config, tier, seed)
     except Unsupported as exc:
         return [Result(name="translate", kind="identity", status="unknown", config=config["name"], detail=f"Unsupported: {exc}")]
 
@@ -450,6 +525,11 @@ def configs(tier):
                 continue
             for perm in perms:
                 out.append({"name": f"angles:n={n}:t={t}:perm={''.join(map(str, perm))}:cse=True", "kind": "angles", "n": n, "t": t, "perm": perm, "cse": True})
+    for perm in ((1, 2, 3), (2, 1, 3), (3, 1, 2)):  # isobars (23), (13), (12): every closed form theta_ij the recursion can name
+        for axis in ("x", "y", "z"):
+            for k in range(2 if tier == "quick" else 6):
+                for cse in (True, False) if tier == "thorough" else (True,):
+                    out.append({"name": f"dalitz:perm={''.join(map(str, perm))}:axis={axis}:event#{k}:cse={cse}", "kind": "dalitz", "perm": perm, "axis": axis, "event": k, "cse": cse})
     out.append({"name": "names:n=3:all-permutations", "kind": "names", "n": 3, "all": True, "cse": True})
     out.append({"name": "names:n=4:t=0:permutations", "kind": "names", "n": 4, "t": 0, "cse": True})
     out.append({"name": "names:n=4:t=1:permutations", "kind": "names", "n": 4, "t": 1, "cse": True})
@@ -467,11 +547,12 @@ def main():
     chk.run(worker, configs(chk.tier))
     chk.finish(
         functions=[
-            angles.compute_helicity_angles, angles.Phi.evaluate, angles.Theta.evaluate, lorentz.compute_invariant_masses,
+            angles.compute_helicity_angles, angles.formulate_scattering_angle, angles.Phi.evaluate, angles.Theta.evaluate, lorentz.compute_invariant_masses,
             lorentz.get_invariant_mass_symbol, lorentz.InvariantMass.evaluate, naming.get_boost_chain_suffix,
             naming.get_helicity_angle_symbols, HelicityAdapter.create_expressions, HelicityAdapter.permutate_registered_topologies,
         ],  # fmt: skip
-        bounds={"final states": "2..4 (masses 2..5 thorough)", "relabelings": "selected permutations", "batch": 1, "cse": "on/off"},
+        bounds={"final states": "2..4 (masses 2..5 thorough)", "relabelings": "selected permutations", "batch": 1, "cse": "on/off",
+                "(c) Dalitz closed form": "three isobar choices (12), (13), (23); 2 (6 thorough) concrete rational rest-frame events each, rotated by a symbolic angle about x, y, z"},
         assumptions=[
             "events: every final-state momentum time-like with E > 0 (massless excluded)",
             "reference recursion: helicity state = child with the smaller attached final-state tuple; an isobar's angles are "
@@ -480,7 +561,7 @@ def main():
         ],
         outside=["(b) for topologies with two or more nested helicity frames (4-body cascade 0(1(23)), 5-body): the exact radical "
                  "arithmetic of the second frame exceeds what the engine builds; (a) and (d) still cover them",
-                 "(c) Dalitz closed form vs four-vector route (covered for the closed form itself by C19)", "momentum along +-z or at rest (0/0)", "floating point"],
+                 "(c) for events other than the rotated rational ones (the closed form itself is covered for all masses by C19)", "momentum along +-z or at rest (0/0)", "floating point"],
     )
 
 
